@@ -692,7 +692,7 @@ func checkAztecFieldLadder(c *Ctx, r *Report, rule string) {
 		}
 	}
 	if ladder == nil {
-		r.Undecided(rule, key, c.pos(fd.Pos()), "layer ladder not found")
+		checkAztecCutRule(c, r, rule, false) // not the if-ladder shape: decided by folding correctBits for every size
 		return
 	}
 	var sizeObj, gfObj types.Object
@@ -714,7 +714,7 @@ func checkAztecFieldLadder(c *Ctx, r *Report, rule string) {
 		}
 	}
 	if sizeObj == nil || gfObj == nil {
-		r.Undecided(rule, key, c.pos(fd.Pos()), "codewordSize / gf variables not found")
+		checkAztecCutRule(c, r, rule, false) // not the if-ladder shape: decided by folding correctBits for every size
 		return
 	}
 	bad := ""
